@@ -15,7 +15,16 @@ for p in sorted(glob.glob(os.path.join(VERIF, "spec", "*.tla"))):
         print(out[-2000:])
         bad += 1
 print("py build:", build.py_build(verbose=True))
-for fl in ("plain", "asan"):
-    print("native %s:" % fl, build.native_lib(fl))
+for fl in ("plain", "asan", "shim"):
+    try:
+        print("native %s:" % fl, build.native_lib(fl))
+    except RuntimeError as e:
+        if fl != "shim":
+            raise
+        print("native shim: unavailable (%s)" % str(e)[:200])
+import subprocess  # noqa: E402
+r = subprocess.run([build.PY, os.path.join(VERIF, "tools", "test_ompparse.py")], capture_output=True, text=True)
+print("ompparse self-test:", "ok" if r.returncode == 0 else "FAILED\n" + r.stdout[-2000:])
+bad += r.returncode != 0
 tlc.cleanup()
 sys.exit(1 if bad else 0)
